@@ -63,7 +63,7 @@ CHECKS = {
         "DESIGN.md section 3 C13",
     ),
     "C06": (
-        "Hypothesis PBT over delivery schedules owned by the harness (virtual-time loop): positional value encoding makes every output decode to the input ticks it used",
+        "Hypothesis PBT over delivery schedules owned by the harness (virtual-time loop): positional value encoding makes every output decode to the input ticks it used (deep staggered backlogs, a phase lagging beyond internal capacity, daylight-saving-zone streams, missing samples counted as zero)",
         "Per-stream start offsets, send/settle interleavings and the consumer's start point are generated values; four formula "
         "shapes (builder sum, string sum, nested composition, three-phase). Every output must equal the formula on the inputs "
         "of its own timestamp and the output timeline must be gap-free. Exploration level.",
@@ -79,7 +79,7 @@ CHECKS = {
         "DESIGN.md section 3 C07",
     ),
     "C08": (
-        "Hypothesis PBT over time-ordered arrival scripts hitting both window edges, with a recording resampling function as the observation point and a recomputed relevance window as oracle",
+        "Hypothesis PBT over time-ordered arrival scripts hitting both window edges, with a recording resampling function as the observation point and a recomputed relevance window as oracle (Resampler driven tick by tick, or a MovingWindow that owns its resampler; UTC or daylight-saving-zone timestamps)",
         "Arrival scripts on a quarter-period grid (bursts, silences, future-stamped samples, stamps exactly on T and on "
         "T - age*period, None/NaN) are fed on the virtual clock; what the resampler hands to the (public) resampling function is "
         "compared with the window recomputed from the script. Exploration level.",
@@ -96,7 +96,7 @@ CHECKS = {
         "DESIGN.md section 3 C09",
     ),
     "C10": (
-        "Hypothesis PBT over fault placements x control schedules on a virtual clock: probe actor driven by a generated outcome script, trace judged by a reference lifecycle model and invariants",
+        "Hypothesis PBT over fault placements x control schedules on a virtual clock: probe actor driven by a generated outcome script, trace judged by a reference lifecycle model and invariants; services, run() groups and a real ComponentMetricsResamplingActor with a failing source",
         "The failure is placed at every await point of a small run body (including inside the cancellation handler), restart limit "
         "and delay vary, and start/stop/cancel/wait/extra-task/advance operations land before, inside and after runs and restart "
         "delays; a lifecycle model written from the statement predicts every _run invocation time exactly (virtual time). Also "
@@ -105,7 +105,7 @@ CHECKS = {
         "DESIGN.md section 3 C10",
     ),
     "C11": (
-        "Hypothesis PBT over event histories of a real PowerManagingActor on a virtual clock: each request checked against the actor's own published reports and the latest bounds",
+        "Hypothesis PBT over event histories of a real PowerManagingActor on a virtual clock: each request checked against the actor's own published reports and the latest bounds (results answering the latest or an older request; live proposals sent again at the end must not move the request)",
         "Histories of regular/operating-point proposals, bounds updates, distribution results and expiry are applied to the real "
         "actor (bounds stream injected by the harness); after every event and a quiescence barrier the requests sent are compared "
         "with the sum of the two reported targets and with the latest inclusion bounds; after a bounds update the standing "
@@ -114,7 +114,7 @@ CHECKS = {
         "DESIGN.md section 3 C11",
     ),
     "C12": (
-        "Hypothesis PBT over generated component graphs with ground-truth physics: every generated formula engine is run for real and compared with the constructed totals",
+        "Hypothesis PBT over generated component graphs with ground-truth physics: every generated formula engine is run for real and compared with the constructed totals (staggered stream starts; a phase with one meter missing admits None or the true total only)",
         "Random valid trees (repository validation decides validity) with device powers on separate decimal scales; each of the 7 "
         "formula generators (fallback on/off) is instantiated, run as a real engine on harness-fed channels and compared with the "
         "totals known from the construction, plus the balance grid == consumer + producer + battery + EV. Exploration level.",
@@ -131,7 +131,7 @@ CHECKS = {
         "DESIGN.md section 3 C14",
     ),
     "C15": (
-        "Hypothesis PBT with injected per-call API faults (5 outcomes per set_power call, all 5^n vectors for small n): accounting identities against recorded calls",
+        "Hypothesis PBT with injected per-call API faults (5 outcomes per set_power call, all 5^n vectors for small n): accounting identities against recorded calls; reply latencies, several requests per manager, two in flight at once, and a variant with the SDK's own pool status tracker changing a component's status in mid-flight",
         "Real BatteryManager and PVManager on a fake API whose every set_power call returns, is rejected, errors, raises or "
         "hangs until the (virtual-time) timeout as the generated vector says; the Result is checked against the recorded calls. "
         "Fault-vector space is enumerated completely for n<=2 calls per case, sampled beyond. Exploration level.",
@@ -147,7 +147,7 @@ CHECKS = {
         "DESIGN.md section 3 C16",
     ),
     "C17": (
-        "Hypothesis PBT, differential: advertised SystemBounds (PowerBoundsCalculator) vs admission by a real BatteryManager for probes on/around every advertised bound",
+        "Hypothesis PBT, differential: advertised SystemBounds (PowerBoundsCalculator) vs admission by a real BatteryManager for probes on/around every advertised bound, in five phases on one manager (initial data, late-stamped update, partially working set, bounds streamed by a send-on-update aggregator after a slow drift and after a non-working member changed)",
         "For generated topologies with shared inverters/batteries and exact (half-integer) bounds, every admitted probe power is "
         "sent to a real BatteryManager with both adjust_power settings; OutOfBounds is a violation; enforced inclusion bounds "
         "are read back from a provoked rejection and compared with the advertised ones. Exploration level.",
@@ -155,7 +155,7 @@ CHECKS = {
         "DESIGN.md section 3 C17",
     ),
     "C18": (
-        "Hypothesis PBT: exact Fraction reference model + metamorphic relations (range, monotone, scale)",
+        "Hypothesis PBT: exact Fraction reference model + metamorphic relations (range, monotone, scale, shift) on shared calculator instances, and a real send-on-update pipeline with working-set changes, unchanged messages and slow drift",
         "Generated battery sets (metric presence, working subsets, degenerate limits, zero capacity) are compared "
         "with an exact rational evaluation of the documented formulas and three metamorphic relations; exploration "
         "level: thousands (quick) to ~10^6 (thorough) cases per run, no absence claim.",
